@@ -8,6 +8,13 @@ step machine over the `Arc` strong count.
                                                → (strong = 0) ignored, inert handle
   into_inner:                    spin0:recover.try_unwrap → (strong = 1) take the recorder out | retry
   drop(handle):                  h.drop → strong -= 1 (last one drops the recorder)
+  emission in which the recorder panics:  as an emission; the unwind drops the strong reference (the `Arc` local of
+                                 the `if let Some(recorder) = upgrade()` arm), the thread survives (catch_unwind)
+  re-entrant emission:           the wrapped recorder, while executing the forwarded call, itself emits through the
+                                 same wrapper (exporter telemetry): weak.upgrade → weak.upgrade (nested) → rec.inside
+                                 (nested) → rec.inside (outer) — the thread then holds TWO strong references
+  install:                       build, `set_global_recorder(wrapper)`; cell taken → wrapper dropped (weak only),
+                                 `handle.into_inner()` with no emitter, recorder handed back in the error
 
 `Arc` is trusted as the counting protocol: `Weak::upgrade` succeeds iff strong > 0, `Arc::try_unwrap`
 succeeds iff strong = 1, the value is dropped exactly when the count reaches 0 without having been unwrapped.
@@ -18,6 +25,8 @@ inductive Call
   | emit               -- one describe_* / register_* through the installed wrapper
   | intoInner          -- RecoveryHandle::into_inner
   | dropHandle         -- drop(RecoveryHandle)
+  | emitPanic          -- an emission during which the wrapped recorder panics (the thread survives the unwind)
+  | emitNested         -- an emission during which the wrapped recorder emits once more through the same wrapper
   deriving Repr, DecidableEq
 
 inductive Res
@@ -25,10 +34,15 @@ inductive Res
   | ignored            -- upgrade failed: no-op / inert handle
   | recovered          -- into_inner returned the recorder
   | dropped            -- handle dropped
+  | panicked           -- the call reached the wrapped recorder, which panicked; the unwind released the reference
+  | nestedDelivered    -- the re-entrant (inner) call of an `emitNested` reached the wrapped recorder
+  | nestedIgnored      -- the re-entrant (inner) call of an `emitNested` was answered with an inert handle
   deriving Repr, DecidableEq
 
 inductive PC
   | start | upgrade | inside | tryUnwrap | hdrop | done
+  | nUpgrade           -- inside the recorder (outer call), about to upgrade again for the re-entrant call
+  | nInside            -- inside the recorder twice (outer and re-entrant call)
   deriving Repr, DecidableEq
 
 structure Thread where
@@ -52,6 +66,8 @@ def pcOfCall : Call → PC
   | .emit => .upgrade
   | .intoInner => .tryUnwrap
   | .dropHandle => .hdrop
+  | .emitPanic => .upgrade
+  | .emitNested => .upgrade
 
 def Thread.advance (t : Thread) (r : Res) : Thread :=
   let rest := t.calls.tail
@@ -68,17 +84,34 @@ def init (progs : List (List Call)) : Sys :=
 def release (s : Sys) : Sys :=
   if s.strong = 1 then { s with strong := 0, finalised := s.finalised + 1 } else { s with strong := s.strong - 1 }
 
+/-- `Weak::upgrade` succeeded: one more strong reference, one more call inside the recorder -/
+def enter (s : Sys) : Sys :=
+  { s with strong := s.strong + 1, inside := s.inside + 1,
+           enteredAfterEnd := s.enteredAfterEnd || decide (s.finalised > 0) || s.recovered }
+
+/-- the `weak.upgrade` step of an emission: enter the recorder (next pc `pc'`) or answer with an inert handle -/
+def upgradeStep (s : Sys) (t : Thread) (pc' : PC) : Sys × Thread :=
+  if s.strong > 0 then (enter s, { t with pc := pc' }) else (s, t.advance .ignored)
+
+/-- the call returns (or unwinds): leave the recorder and drop the strong reference -/
+def leaveStep (s : Sys) (t : Thread) (r : Res) : Sys × Thread :=
+  (release { s with inside := s.inside - 1 }, t.advance r)
+
 def stepThread (s : Sys) (t : Thread) : Sys × Thread :=
   match t.pc, t.calls with
   | .start, [] => (s, { t with pc := .done })
   | .start, c :: _ => (s, { t with pc := pcOfCall c })
-  | .upgrade, .emit :: _ =>
-    if s.strong > 0 then
-      ({ s with strong := s.strong + 1, inside := s.inside + 1,
-                enteredAfterEnd := s.enteredAfterEnd || decide (s.finalised > 0) || s.recovered },
-       { t with pc := .inside })
-    else (s, t.advance .ignored)
-  | .inside, .emit :: _ => (release { s with inside := s.inside - 1 }, t.advance .delivered)
+  | .upgrade, .emit :: _ => upgradeStep s t .inside
+  | .upgrade, .emitPanic :: _ => upgradeStep s t .inside
+  | .upgrade, .emitNested :: _ => upgradeStep s t .nUpgrade
+  | .inside, .emit :: _ => leaveStep s t .delivered
+  | .inside, .emitPanic :: _ => leaveStep s t .panicked
+  | .inside, .emitNested :: _ => leaveStep s t .delivered
+  | .nUpgrade, .emitNested :: _ =>
+    if s.strong > 0 then (enter s, { t with pc := .nInside })
+    else (s, { t with pc := .inside, results := t.results ++ [.nestedIgnored] })
+  | .nInside, .emitNested :: _ =>
+    (release { s with inside := s.inside - 1 }, { t with pc := .inside, results := t.results ++ [.nestedDelivered] })
   | .tryUnwrap, .intoInner :: _ =>
     if s.handle && s.strong = 1 then
       ({ s with strong := 0, handle := false, recovered := true, unwrapBusy := s.unwrapBusy || decide (s.inside > 0) },
@@ -100,5 +133,31 @@ def run (s : Sys) (sched : List Nat) : Sys := sched.foldl step s
 def PC.label : PC → String
   | .start => "start" | .upgrade => "weak.upgrade" | .inside => "rec.inside"
   | .tryUnwrap => "spin0:recover.try_unwrap" | .hdrop => "h.drop" | .done => "done"
+  | .nUpgrade => "weak.upgrade" | .nInside => "rec.inside"
+
+/-! ### `RecoverableRecorder::install` against the process-wide recorder cell
+
+`cell` is the id of the recorder whose wrapper already sits in the global cell (`none` = empty).  `install`
+builds the pair (one strong reference, held by the handle; the wrapper holds only a weak one) and calls
+`metrics::set_global_recorder(wrapper)`.  On success the handle is returned and the pair starts its life
+(`init`).  On failure the wrapper comes back inside the error and is dropped there (a weak reference: the
+strong count is untouched, nobody can ever emit through it), then `handle.into_inner()` runs — the step
+machine with the single program `[intoInner]` and no emitter — and the recorder travels back in
+`SetRecorderError`. -/
+
+inductive InstallOut
+  | installed                                        -- `Ok(handle)`
+  | handedBack (id : Nat) (finalised : Nat) (recovered : Bool)   -- `Err(SetRecorderError(recorder))`
+  deriving Repr, DecidableEq
+
+/-- the pair as `install` uses it on its error path: only the installing thread, which calls `into_inner` -/
+def failedInstallSys (sched : List Nat) : Sys := run (init [[.intoInner]]) sched
+
+def install (cell : Option Nat) (id : Nat) : Option Nat × InstallOut :=
+  match cell with
+  | none => (some id, .installed)
+  | some g =>
+    let s := failedInstallSys [0, 0]       -- start, one `Arc::try_unwrap`
+    (some g, .handedBack id s.finalised s.recovered)
 
 end MetricsVerif.Recoverable
